@@ -97,6 +97,19 @@ claim("C03",
       "Not decided: the full iff over (source type, target type, settings) and that no documented conversion is rejected. Gate table in checker/c03.go is the documented behaviour.",
       "static analysis: SSA path facts (conditions known true/false at each `return true`), error-flow path search, AST shape of the dispatchers")
 
+claim("C02",
+      "Decides the panic-freedom, termination-shape and nil-ness clauses for the code goverter itself emits, as properties of the closed set of emission sites: audited operator/construct vocabulary, guarded dereference "
+      "(everything computed from JenID.Deref is returned only inside If(source != nil); mapField guards pointer hops), make(T, len(source)) under source != nil before indexing, bounded loop shapes over the source, panic only for enum @panic, "
+      "Build/Assign derived from one another, map entries always assigned. One known finding (D12, golden-pinned) is reported as KNOWN-FINDING.",
+      "Not decided: equality of converted values with the structural mapping, order/length preservation as run-time relations. Trusted: jennifer renders each construct as named; vocabulary tables in checker/c02.go.",
+      "static analysis: emission-chain inventory, AST taint from Deref to returns with If-guard sanitiser, shape rules for make/loops")
+
+claim("C04",
+      "Emission-site analysis: the unconverted source expression reaches an identity sink (result JenID, RHS of emitted =/:=, target index) only in audited owners; no emitted write has a left-hand side derived from the source; "
+      "containers are assigned from make() only; empty receiver struct, no package state, converter-level settings for shared sub-methods. Decides that no emission site of the generator can alias or mutate the source, for all inputs.",
+      "Not decided: sharing under skipCopySameType through type combinations (SkipCopy is an audited owner), the dynamic race detector's view. Owner table identitySinkOwners in checker/c04.go.",
+      "static analysis: AST source-expression taint over builder/generator functions with converter calls as sanitisers")
+
 NOT_APPLICABLE_REASON = "rules for this property are designed (DESIGN.md §2) but the checker code is not built yet in this round; not claimed until it runs"
 
 def main():
